@@ -537,6 +537,22 @@ def run(ctx):
                                     values.contains(f[1], lambda x: is_call(x) and callee_name(x[1]) == "last") and (f[2] if f[0] == "eq" else not f[2]):
                                 idiom = "tag not above the previous tag (guard checked by rule 2)"
                     for r in (guard or rels):
+                        if r[0] in ("Eq", "Ne") and isinstance(r[1], tuple) and r[1][0] == "discr" and \
+                                ((r[0] == "Eq" and r[2] == ("int", 0)) or (r[0] == "Ne" and r[2] == ("int", 1))):
+                            # `s.get(p..).and_then(|rest| rest.split_at_checked(k))` is None exactly when p + k > len(s)
+                            x = values.strip_payload(r[1][1])
+                            if is_call(x) and callee_name(x[1]) == "and_then" and len(x[2]) == 2 and isinstance(x[2][1], tuple) and x[2][1][0] == "closure":
+                                g = values.strip_payload(W.expand(x[2][0]))
+                                K = P.fns.get(x[2][1][1])
+                                kr = values.strip_payload(W.ev(K.path).ret()) if K is not None else None
+                                if is_call(g) and strip_generics(g[1]).endswith("slice::get") and g[2][1][0] == "agg" and str(g[2][1][1]).endswith("RangeFrom::RangeFrom") and \
+                                        is_call(kr) and callee_name(kr[1]) in ("split_at_checked", "split_first_chunk") and kr[2][0] == ("param", K.path, 2):
+                                    k_ = kr[2][1] if len(kr[2]) > 1 else ("int", 4)
+                                    synth = ("Lt", ("len", g[2][0]), ("bin", "Add", g[2][1][2][0], k_))
+                                    wit2, used2 = rejection_witness(list(rels) + [synth], roles, grid, consistent)
+                                    if rel_holds(synth, {roles[k2]: 0 for k2 in roles}) is not None and used2 and wit2 is None:
+                                        idiom = "input ends before the %s bytes being taken (get(p..) + split_at_checked)" % fmt(k_)
+                                    continue
                         if r[0] == "NotPred" and r[1] == "is_ok" and is_call(r[2]) and callee_name(r[2][1]) in SHORT_READ:
                             idiom = "short read"
                         elif r[0] in ("Le", "Lt", "Eq") and values.contains(r[1], lambda x: is_call(x, "Tag::from_wire")) \
